@@ -34,8 +34,8 @@ func (t *Tape) Intn(n int) int {
 	}
 	return int(t.U64() % uint64(n))
 }
-func (t *Tape) Bool() bool         { return t.U64()&1 == 1 }
-func (t *Tape) Chance(p int) bool  { return t.Intn(100) < p } // p percent
+func (t *Tape) Bool() bool        { return t.U64()&1 == 1 }
+func (t *Tape) Chance(p int) bool { return t.Intn(100) < p } // p percent
 func (t *Tape) Pick(xs []string) string {
 	if len(xs) == 0 {
 		return ""
@@ -73,9 +73,9 @@ func (t *Tape) Weighted(w []int) int {
 type EntropyStream struct {
 	mu     sync.Mutex
 	s      uint64
-	Draws  int      // number of Read calls
-	Bytes  int      // bytes served
-	Log    [][]byte // every chunk served (for the C06 pass-through oracle); bounded
+	Draws  int            // number of Read calls
+	Bytes  int            // bytes served
+	Log    [][]byte       // every chunk served (for the C06 pass-through oracle); bounded
 	FailAt map[int]string // draw index -> "err" | "short"
 	Fired  map[string]int
 }
